@@ -409,6 +409,13 @@ pub fn canonical_root(p: &Path) -> Path {
 
 impl GroupConfig {
     fn validate(&self) -> Result<(), String> {
+        if self.isolate && self.stdin && self.paths.is_empty() {
+            return Err(
+                "The --isolate flag requires the isolated directories to be given \
+                 as arguments, also when the files to scan are read from the standard input."
+                    .to_string(),
+            );
+        }
         if self.isolate && self.paths.len() <= self.rf_over() {
             return Err(format!(
                 "The --isolate flag requires that the number of input paths ({}) \
@@ -542,7 +549,13 @@ impl GroupConfig {
     /// Only such paths can be compared with the reported paths,
     /// e.g. to check if a file is located under one of the input paths.
     pub fn root_paths(&self) -> Vec<Path> {
-        self.input_paths().map(|p| canonical_root(&p)).collect()
+        // The roots are always the paths given as arguments. With `--stdin` the scanned paths
+        // come from the standard input, which can be read only once, by the scan.
+        let base_dir = Arc::new(self.base_dir.clone());
+        self.paths
+            .iter()
+            .map(|p| canonical_root(&base_dir.resolve(p)))
+            .collect()
     }
 
     /// Returns an iterator over the absolute input paths.
